@@ -110,6 +110,14 @@ func (c *Collection) Update(id string, msg proto.Message, opts ...WriteOption) (
 		&c.mu,
 		func() (item proto.Message, err error) {
 			if created != nil {
+				// this is the re-validation read: someone else may have created the item since the first read,
+				// in which case the provisional message no longer represents what is stored.
+				if val, exists := c.byId[id]; exists {
+					if writeRequest.expectAbsent {
+						return nil, ExpectAbsentPreconditionFailed
+					}
+					return val.body, nil
+				}
 				return created, nil
 			}
 
